@@ -419,6 +419,11 @@ def apply_ghost(text, label, ghost, report):
                 continue
             kw_i, brace_i, kw = marked_loop(k)
             text = text[:brace_i].rstrip() + "\n" + "\n".join(tag(body)) + "\n" + text[brace_i:]
+    for kind, arg, body in reversed(secs):   # reversed: each insertion goes to the front, file order is kept
+        if kind == "top":
+            # first thing in the function body (structural anchor: survives edits to the first statement)
+            bo = body_or_semi(text)
+            text = text[:bo + 1] + "\n" + "\n".join(tag(["    " + l for l in body])) + "\n" + text[bo + 1:]
     for kind, arg, body in secs:
         if kind == "sig":
             bo = body_or_semi(text)
